@@ -465,8 +465,82 @@ fn concurrent_adds(rounds: u64, seed: u64, fd: i32) -> i32 {
             break;
         }
     }
+    if crate::istep::supported() {
+        drop_sweep(fd, &base);
+    }
     wr(fd, "DONE\n");
     0
+}
+
+static DROP_GO: std::sync::atomic::AtomicBool = std::sync::atomic::AtomicBool::new(false);
+static DROP_DONE: std::sync::atomic::AtomicBool = std::sync::atomic::AtomicBool::new(false);
+
+fn drop_rendezvous(_k: u64, _rip: usize) {
+    DROP_GO.store(true, Ordering::SeqCst);
+    let mut i = 0u64;
+    while !DROP_DONE.load(Ordering::SeqCst) {
+        i += 1;
+        if i % 64 == 0 {
+            unsafe { libc::sched_yield() };
+        }
+    }
+}
+
+/// The last two owners of an instance go away at the same time, at instruction granularity: one thread single-steps through
+/// the drop of its handle and stands still at the k-th instruction while the other thread drops the instance completely
+/// (for every k). Whoever is last must clean up: nothing of the instance may run afterwards, its descriptors are closed.
+fn drop_sweep(fd: i32, base: &[c_int]) {
+    use crate::fork::wr;
+    crate::istep::install();
+    let sig = libc::SIGUSR1;
+    let mut n = 400u64;
+    let mut k = 0u64;
+    let mut fired_n = 0u64;
+    while k <= n + 2 {
+        let (r, w) = UnixStream::pair().unwrap();
+        let d = match SignalDelivery::with_pipe(r, w, WithRawSiginfo, [sig]) {
+            Ok(d) => d,
+            Err(e) => {
+                wr(fd, &format!("BAD with_pipe failed: {}\n", e));
+                return;
+            }
+        };
+        let h2: Handle = d.handle();
+        DROP_GO.store(false, Ordering::SeqCst);
+        DROP_DONE.store(false, Ordering::SeqCst);
+        let target = if k == 0 { u64::MAX - 1 } else { k };
+        let jt = std::thread::spawn(move || {
+            crate::set_thread(12, class::MUTATOR);
+            crate::istep::arm(target, 100_000, drop_rendezvous);
+            drop(h2);
+            let r = crate::istep::disarm();
+            director::lib_exit();
+            r
+        });
+        while !DROP_GO.load(Ordering::SeqCst) && !jt.is_finished() {
+            std::thread::yield_now();
+        }
+        drop(d);
+        DROP_DONE.store(true, Ordering::SeqCst);
+        let (steps, fired, _) = jt.join().unwrap_or((0, false, 0));
+        if k == 0 {
+            n = steps.min(3000);
+        } else if fired {
+            fired_n += 1;
+        }
+        let before = STORED.load(Ordering::SeqCst);
+        unsafe { libc::raise(sig) };
+        if STORED.load(Ordering::SeqCst) != before {
+            wr(fd, &format!("BAD drop sweep k={}: an action of the instance still ran after it and its handles were dropped (the instance was dropped by one thread while another stood at instruction {} of the drop of the last other handle)\n", k, k));
+            return;
+        }
+        if crate::sig::open_fds() != base {
+            wr(fd, &format!("BAD drop sweep k={}: descriptors {:?} differ from the baseline {:?} after both owners were dropped\n", k, crate::sig::open_fds(), base));
+            return;
+        }
+        k += 1;
+    }
+    wr(fd, &format!("DROPSWEEP instructions={} fired={}\n", n, fired_n));
 }
 
 pub fn main(args: &[String]) -> i32 {
@@ -560,6 +634,7 @@ pub fn main(args: &[String]) -> i32 {
     // ---- concurrent additions
     let conc_rounds = arg_u64(args, "--concurrent", 200);
     let mut concurrent_rounds_done = 0u64;
+    let mut drop_sweep_points = 0u64;
     if bad.is_empty() && conc_rounds > 0 {
         let res = fork::probe(300_000, false, move |fd| concurrent_adds(conc_rounds, seed, fd));
         if !res.out.contains("DONE") {
@@ -568,10 +643,18 @@ pub fn main(args: &[String]) -> i32 {
             concurrent_rounds_done = conc_rounds;
         }
         for l in res.out.lines().filter(|l| l.starts_with("BAD ")).take(3) {
-            let sg = if l.contains("still ran") || l.contains("descriptors") { "concurrent-add-leaks-registration" } else { "concurrent-add-registers-twice" };
+            let sg = if l.contains("drop sweep") { "concurrent-drop-leaks-registration" } else if l.contains("still ran") || l.contains("descriptors") { "concurrent-add-leaks-registration" } else { "concurrent-add-registers-twice" };
             bad.push((sg.into(), l[4..].to_string()));
         }
         keys.insert("concurrent-adds".to_string());
+        if let Some(l) = res.out.lines().find(|l| l.starts_with("DROPSWEEP ")) {
+            for kv in l.split_whitespace() {
+                if let Some(v) = kv.strip_prefix("fired=") {
+                    drop_sweep_points = v.parse().unwrap_or(0);
+                }
+            }
+            keys.insert("drop-sweep".to_string());
+        }
     }
     director::uninstall();
     let mut nviol = 0;
@@ -597,6 +680,7 @@ pub fn main(args: &[String]) -> i32 {
         .set("scripts_with_panic_reject", J::u(outcome_counts[Class::Panic as usize]))
         .set("rejected_numbers_in_rotation", J::u(rejects.len() as u64))
         .set("concurrent_add_rounds", J::u(concurrent_rounds_done))
+        .set("concurrent_drop_instruction_points", J::u(drop_sweep_points))
         .set("violations", J::u(nviol))
         .set("wall_ms", J::u(crate::now_ms() - t0)));
     if nviol == 0 {
